@@ -56,7 +56,10 @@ Version(r) == r.outcome = "ir" => r.version = r.pv
 Coherent(n, r) == r.outcome = "ir" =>
                     CASE n = "Forest" -> Forest(r) [] n = "Cache" -> Cache(r) [] n = "RefKinds" -> RefKinds(r)
                       [] n = "Bytes" -> Bytes(r) [] n = "Resave" -> Resave(r)
-Failing(r) == {n \in {"Forest", "Cache", "RefKinds", "Bytes", "Resave"} : ~Coherent(n, r)}
+\* records of IRs that did not come from a file (states reached by the repository's own tests) name
+\* the clauses that apply to them
+Clauses(r) == IF "clauses" \in DOMAIN r THEN ToSet(r.clauses) ELSE {"Forest", "Cache", "RefKinds", "Bytes", "Resave"}
+Failing(r) == {n \in Clauses(r) : ~Coherent(n, r)}
               \cup (IF Header(r) THEN {} ELSE {"Header"}) \cup (IF NoHang(r) THEN {} ELSE {"NoHang"})
               \cup (IF Version(r) THEN {} ELSE {"Version"})
 Judge == Failing(Recs[idx]) = {} \/ PrintT(ToJson([bad |-> idx, failing |-> Failing(Recs[idx])]))
